@@ -87,6 +87,9 @@ PROPS["C16"] = dict(units=["bls_consts", "consts", "ops_fp", "wrap64_fp", "field
     explanation="bls12_377.rs contains no algorithms, only configuration constants: every literal (Fp2/Fp6/Fp12 non-residues, all 6+6+12 Frobenius coefficients, G1/G2 generators, COEFF_B, cofactors and their inverses, x, twist type) is shown by compute to equal the value defined by the modulus (gamma^k with gamma = (-5)^((p-1)/6), delta^k, generators on curve, [r]G1 = O, cofactor*inverse = 1 mod r, p and r as polynomials in x) AND the corresponding constant parsed from the reference crate's source",
     technique="contract-based deductive verification: generated ground lemmas over the configuration literals extracted from /repo, discharged by Verus by(compute_only); engine equivalence itself is assumed (parametricity) with a bounded differential stand-in in the thorough tier",
     not_decided=["the pairing computation itself (generic arkworks code, A-ARK) -- bounded differential probe `bls` in the thorough tier", "[r]G2 = O"])
+# C16's parametricity argument rests on Fp's arithmetic and serialisation being those of the reference field: every Fp
+# obligation of C10/C11 is therefore also an obligation of C16 (the file src/fields/fp/* is the engine's base field)
+PROPS["C16"]["tag_alias"] = {u: ["C10", "C11"] for u in ("ops_fp", "wrap64_fp", "fieldx_fp")}
 WATCH_C16 = {"src/ark_curve/bls12_377.rs": [("ark", "bls")]}
 PROPS["C16"]["watch"] = WATCH_C16
 
